@@ -344,14 +344,27 @@ def check_C13(ctx):
     cfg = "MC_API.cfg" if ctx.quick else "MC_API_thorough.cfg"
     r = ctx.tlc("MC_API", cfg=cfg, workers=NCPU, timeout=3000, heap="16g")
     ctx.notes["spec_model"] = "%s: complete reachable API state graph, %d distinct states / %d transitions; Safe, ResetEqualsFresh, RunStops, BadSpawnNoChange, AliveSpawnRefused hold" % (cfg, r["distinct"], r["generated"])
+    # spec -> code: one witness history per reachable state of the spec, replayed on the real simulator
+    import asm_checks
+    path, ncases, _ = asm_checks.tlc_cases(ctx, "MC_API_emit.cfg" if ctx.quick else "MC_API_emit_thorough.cfg", module="MC_API")
+    outp = os.path.join(ctx.sub("apicases"), "ac")
+    stc = ctx.harness_json(["apicases", "-in", path, "-out", outp])
+    if stc["cases"] != ncases and stc["mismatches"] == 0:
+        raise ToolError("apicases replayed %d of %d cases" % (stc["cases"], ncases))
+    ctx.notes["witness_histories_replayed"] = "%d (one per reachable spec state, %d calls)" % (stc["cases"], stc["calls"])
+    for e in read_lines(outp + ".000.ndjson")[:10]:
+        ctx.violation("C13 witness history %s" % ("panic" if any("panic" in d for d in e["diffs"]) else "state differs"),
+                      "TLC-generated history %s: real simulator differs from the specification's state: %s" % (json.dumps(e["hist"]), "; ".join(e["diffs"])[:400]),
+                      dict(kind="apicase", case=e["case"]))
+    ctx.sample(read_line(path, min(ncases, 20000)))
     if ctx.quick:
         shards, st = gen_battles(ctx, "api", ["-shards", 32, "-depth", 4, "-random", 400], "api")
     else:
         shards, st = gen_battles(ctx, "api", ["-shards", 192, "-depth", 5, "-random", 20000], "api")
     rej = ctx.validate_shards("BattleTrace", shards, mode="C13", heap="5g")
-    ctx.cov["traces_validated_against_impl"] = st["histories"]
-    ctx.cov["evaluations"] = st["events"]
-    ctx.cov["distinct_nontrivial"] = st["histories"]
+    ctx.cov["traces_validated_against_impl"] = st["histories"] + stc["cases"]
+    ctx.cov["evaluations"] = st["events"] + stc["calls"]
+    ctx.cov["distinct_nontrivial"] = st["histories"] + stc["cases"]
     ctx.cov["exhaustive"] = True
     ctx.notes["hung_run_calls"] = st["hung"]
     ctx.sample(read_lines(shards[0])[:5])
@@ -424,6 +437,17 @@ def hist_str(h):
         else:
             out.append({"cycle": "RunCycle", "run": "Run", "reset": "Reset"}[c["kind"]])
     return " ".join(out)
+
+
+def replay_apicase(ctx, payload):
+    d = ctx.sub("replay")
+    src = os.path.join(d, "case.ndjson")
+    open(src, "w").write(json.dumps(payload["case"]) + "\n")
+    st = ctx.harness_json(["apicases", "-in", src, "-out", os.path.join(d, "o")])
+    ctx.cov["evaluations"] = 1
+    ctx.cov["traces_validated_against_impl"] = 1
+    if st["mismatches"]:
+        ctx.violation(payload["signature"], payload["what"], dict(kind="apicase", case=payload["case"]))
 
 
 def replay_api(ctx, payload):
